@@ -83,6 +83,12 @@ def c01(tier, rng):
         out.append(case("t%d" % n[0], pre + script, list(tags) + ["w%d" % wm], **meta))
         n[0] += 1
     cf, wf, pf = connect_fields(rng), will_fields(rng), publish_fields(rng)
+    # packets written when a session is resumed are as well formed as first transmissions (PUBLISH with DUP, PUBREL)
+    for q1 in (1, 2):
+        out.append(case("resume-%d" % q1, "connect sei=1000 ; deliver %s ; run ; start 0 0 pub q=%d t=61 pl=41 ; poll 0 ; start 1 0 pub q=2 t=62 pl=42 ; poll 1 ; "
+                        "deliver %s ; poll 1 ; markdisc 5 ; reconnect ; connect sei=1000 ; deliver %s ; run ; poll 0 ; poll 1 ; markdisc 5 ; reconnect ; "
+                        "connect sei=1000 ; deliver %s ; run ; poll 0 ; poll 1"
+                        % (hx(M.connack()), q1, hx(M.pubrec(2)), hx(M.connack(1)), hx(M.connack(1))), ["resume"]))
     # CONNECT: each field alone, pairs, all
     keys = list(cf)
     for k in keys:
@@ -410,6 +416,24 @@ def c03(tier, rng):
     if tier == "thorough":
         stream = M.publish(b"t", b"\x55" * 2097152, ps=[(11, 1)]) + M.pingresp()
         add(stream, [(0, 1), (1, 3), (3, 1000), (1000, len(stream) - 1), (len(stream) - 1, len(stream))], ["2MiB"])
+    # the framing of a connection depends on that connection's bytes only: the same Context connected again after its
+    # previous connection ended in the middle of a packet (after every prefix of a PUBLISH), by EOF or by the user
+    left = M.publish(b"t", b"left-over", 1, 7, ps=[(11, 1)])
+    for k in list(range(1, len(left))) if tier == "thorough" else (1, 2, 3, 5, 9, len(left) - 1):
+        for how in ("eof", "disc"):
+            end = "eof" if how == "eof" else "start 5 0 disc ; poll 5 ; poll 5"
+            out.append(case("again-%s-%d" % (how, k), sub_prefix() + " ; deliver %s ; %s ; reconnect ; connect ; deliver %s ; run ; start 6 0 ping ; poll 6 ; "
+                            "deliver %s ; poll 6 ; start 7 0 sub f=62:0000 ; poll 7 ; deliver %s ; poll 7"
+                            % (hx(left[:k]), end, hx(M.connack()), hx(M.pingresp()), hx(M.suback(2, [0]))), ["again"]))
+    # the size limit the CLIENT announces in CONNECT concerns single packets, never how many bytes one read brings
+    for own in (16, 256, 3000):
+        pre_own = "connect mps=%d ; deliver %s ; run ; start 0 0 sub f=61:2000 ; poll 0 ; deliver %s ; poll 0 ; tostream 0 ; start 9 0 ping ; poll 9" % (
+            own, hx(M.connack()), hx(M.suback(1, [2])))
+        one = M.publish(b"t", b"x" * max(1, min(own, 900) - 12), ps=[(11, 1)])
+        for reps in (3, 8):
+            stream = one * reps + M.pingresp()
+            out.append(case("ownlimit-%d-%d" % (own, reps), pre_own + " ; deliver %s ; %s ; poll 9" % (hx(stream), " ; ".join(["pollstream 0"] * (reps + 1))),
+                            ["ownlimit"], stream_len=len(stream), chunks=1))
     # the transport ends: never before its own end-of-stream
     for cause in ("eof", "rerr"):
         stream, _ = mk_stream([-1, 40])
@@ -482,6 +506,33 @@ def c04(tier, rng):
             else:
                 d = "deliver %s ; deliver %s" % (hx(bs[:1]), hx(bs[1:])) if len(bs) > 2 else "deliver " + hx(bs)
             out.append(case("glued-pingresp-%d-%d" % (glue.index(g), chunks), phases["running"] + " ; " + d + " ; poll 0 ; poll 1 ; poll 0", ["running", "glued"]))
+    # quota arithmetic cannot overflow: Session Present with a low Receive Maximum, then acknowledgements nobody waits for
+    for sp_ in (0, 1):
+        for rm in (1, 2, 65535):
+            strays = M.puback(9) + M.pubcomp(9) + M.pubrec(9, 128) + M.puback(10, 128) + M.pubcomp(11, 146)
+            out.append(case("strayquota-sp%d-R%d" % (sp_, rm), "connect ; deliver %s ; run ; start 0 0 ping ; poll 0 ; deliver %s ; deliver %s ; "
+                            "start 1 0 pub q=1 t=61 ; poll 1 ; start 2 0 pub q=2 t=61 ; poll 2 ; deliver %s ; poll 0"
+                            % (hx(M.connack(sp_, 0, [(33, rm)])), hx(strays), hx(strays), hx(M.pingresp())), ["running", "strayquota"]))
+    # a read that fills the whole offered buffer (512 bytes) and ends right behind a fixed header or inside a multi-byte
+    # remaining length, with complete packets before it: the ping pending since the start completes
+    filler = M.publish(b"t", b"f" * 200)
+    big = M.publish(b"t", b"B" * 300)                       # remaining length needs two bytes
+    for lead in range(506, 514):
+        head = b""
+        while len(head) + len(filler) <= lead - 2:
+            head += filler
+        pad = lead - len(head)
+        if pad >= 7:
+            head += M.publish(b"t", b"p" * (pad - 6))
+        elif pad in (2, 4, 6):
+            head += M.pingresp() * (pad // 2)
+        else:
+            continue
+        assert len(head) == lead, (len(head), lead)
+        stream = head + big + M.pingresp()
+        out.append(case("fill512-%d" % lead, phases["running"] + " ; deliver %s ; deliver %s ; poll 0 ; poll 1 ; poll 0" % (hx(stream[:512]), hx(stream[512:])),
+                        ["running", "fill512"]))
+        out.append(case("fill512w-%d" % lead, phases["running"] + " ; deliver %s ; poll 0 ; poll 1 ; poll 0" % hx(stream), ["running", "fill512"]))
     # over-long variable byte integers, in the length field and in a property
     for v in (b"\xff\xff\xff\xff\x7f", b"\x80\x80\x80\x80\x00", b"\xff\xff\xff\x7f", b"\x80\x80\x80\x80\x80"):
         add("running", b"\x40" + v, ["varint5"])
